@@ -279,6 +279,7 @@ def R_closure(toks, arg):
     """`|args| e` (n-th closure, expression body) becomes `|args| -> (cret: T) { e }`: explicit return type and block,
     identical meaning in Rust; the name `cret` is for the closure's ghost `ensures`. arg = "<n>:<T>"."""
     n_s, ty = arg.split(":", 1)
+    ty = ty.replace("|", ",")      # a comma inside the type is written `|` in the directive (commas separate rewrites)
     n = int(n_s)
     out = list(toks)
     cnt = 0; i = 0
@@ -349,7 +350,19 @@ def R_pubfields(toks):
     """private struct fields become `pub` (visibility only, so that contracts outside the defining module can read them)."""
     out = []; n = 0
     bo = next((i for i, t in enumerate(toks) if t.text == "{"), None)
-    if bo is None: return toks, 0
+    if bo is None:
+        # tuple struct `struct X(T, U);`: every field that is not `pub` already
+        po = next((i for i, t in enumerate(toks) if t.text == "(" and i > 0 and toks[i-1].kind == "ident"), None)
+        if po is None: return toks, 0
+        pc = match_close(toks, po)
+        depth = 0
+        for i, t in enumerate(toks):
+            if po < i < pc and depth == 0 and toks[i-1].text in ("(", ",") and t.text != "pub" and t.text != ")":
+                out.append(Tok("ident", "pub", t.pre, line=t.line)); t = t.copy(); t.pre = " "; n += 1
+            if po < i < pc and t.kind == "punct" and t.text in ("(", "[", "{", "<"): depth += 1
+            elif po < i < pc and t.kind == "punct" and t.text in (")", "]", "}", ">"): depth -= 1
+            out.append(t)
+        return out, n
     depth = 0
     for i, t in enumerate(toks):
         if i > bo and depth == 1 and t.kind == "ident" and i + 1 < len(toks) and toks[i+1].text == ":" and toks[i-1].text in ("{", ",") :
@@ -683,4 +696,57 @@ def R_logargs(toks):
                     new[-3].pre = ""; new[-2].pre = ""; new[-1].pre = ""
                 out.extend(new); i = e + 2; n += 1; continue
         out.append(t); i += 1
+    return out, n
+
+
+def R_etactor(toks):
+    """a tuple-variant (or tuple-struct) constructor, a function named by a single identifier, or a trait method path passed as a
+    function value to `map` / `map_err` / `and_then` — `.map_err(Path::Variant)`, `.map(xml_payload)`, `.map(Into::into)` — is
+    eta-expanded to `.map_err(|__e| Path::Variant(__e))` etc. (same meaning in Rust; Verus 0.2026.09.13 does not support these as
+    function values)."""
+    out = list(toks); n = 0; i = 0
+    while i + 2 < len(out):
+        if out[i].text in ("map_err", "map", "and_then") and out[i-1].text == "." and out[i+1].text == "(":
+            e = match_close(out, i + 1)
+            arg = out[i+2:e]
+            texts = [t.text for t in arg]
+            # ident (: : ident)*
+            ok = len(texts) >= 4 and all((k % 3 == 0 and arg[k].kind == "ident") or (k % 3 != 0 and texts[k] == ":") for k in range(len(texts))) and len(texts) % 3 == 1
+            single_fn = len(texts) == 1 and arg[0].kind == "ident" and texts[0][0].islower() and texts[0] not in ("self",)
+            path_fn = ok and not texts[-1][0].isupper()        # `Into::into`, `AsRef::as_ref`
+            if single_fn or path_fn:
+                new = _mk(["|", "__e", "|"], arg[0], "") + arg + _mk(["(", "__e", ")"], arg[-1], "")
+                new[1].pre = ""; new[2].pre = ""; arg[0].pre = " "
+                for x in new[-3:]: x.pre = ""
+                out[i+2:e] = new; n += 1; i = i + 2 + len(new); continue
+            if ok and texts[-1][0].isupper():
+                new = _mk(["|", "__e", "|"], arg[0], "") + arg + _mk(["(", "__e", ")"], arg[-1], "")
+                new[1].pre = ""; new[2].pre = ""; arg[0].pre = " "
+                for x in new[-3:]: x.pre = ""
+                out[i+2:e] = new; n += 1; i = i + 2 + len(new); continue
+        i += 1
+    return out, n
+
+
+def R_closuretuplepat(toks):
+    """a closure whose single parameter is a tuple pattern — `|(a, b)| e` — becomes `|__tp| { let (a, b) = __tp; e }` (same meaning
+    in Rust; Verus 0.2026.09.13 accepts only variables as closure parameters)."""
+    out = list(toks); n = 0; i = 0
+    while i + 2 < len(out):
+        if out[i].text == "|" and out[i+1].text == "(" and out[i-1].text in ("(", ",", "="):
+            pe = match_close(out, i + 1)
+            if pe + 1 < len(out) and out[pe+1].text == "|":
+                pat = out[i+1:pe+1]
+                b = pe + 2; j = b
+                while j < len(out):
+                    u = out[j]
+                    if u.kind == "punct" and u.text in OPEN: j = match_close(out, j) + 1; continue
+                    if u.text in (")", "]", "}", ",", ";"): break
+                    j += 1
+                body = out[b:j]
+                new = ([out[i]] + _mk(["__tp"], out[i+1], "") + [out[pe+1]] + _mk(["{", "let"], out[b], " ") + pat + _mk(["=", "__tp", ";"], out[b], " ")
+                       + body + _mk(["}"], out[j-1], " "))
+                new[2].pre = ""; pat[0].pre = " "
+                out[i:j] = new; n += 1; i += len(new); continue
+        i += 1
     return out, n
